@@ -192,7 +192,7 @@ type panicOb struct {
 
 func ruleC07(c *Ctx, r *Report) {
 	an := c.anchors()
-	if !requireAnchors(r, an, "C07-anchor") {
+	if !requireAnchors(r, an, "C07-anchor", "stream") {
 		return
 	}
 	p := c.prov()
